@@ -217,14 +217,18 @@ where
 		serde_json::json!({"ep": endpoint.name, "url": url, "cell": endpoint.nonce}),
 	);
 	let client = get_client(&endpoint.root_certificates)?;
-	if endpoint.nonce.is_none() {
-		let _ = new_nonce(endpoint).await;
-	}
 	for _ in 0..crate::DEFAULT_HTTP_FAIL_NB_RETRY {
+		if endpoint.nonce.is_none() {
+			new_nonce(endpoint).await?;
+		}
 		let mut request = client.post(url);
 		request = request.header(header::ACCEPT, accept);
 		request = request.header(header::CONTENT_TYPE, content_type);
-		let nonce = &endpoint.nonce.clone().unwrap_or_default();
+		// A nonce must never be used twice (RFC 8555, section 6.5).
+		let nonce = &endpoint
+			.nonce
+			.take()
+			.ok_or("the server did not provide any anti-replay nonce")?;
 		let body = data_builder(nonce, url)?;
 		rate_limit(endpoint).await;
 		#[cfg(feature = "breard_r_acmed_verif")]
